@@ -1,0 +1,25 @@
+//go:build verif
+
+// Package verifhook reports points of interest (loop heads, steps between
+// critical operations) to a callback installed by verification tooling.
+package verifhook
+
+import "sync/atomic"
+
+var hook atomic.Pointer[func(site string, n int)]
+
+// At calls the installed callback, if any.
+func At(site string, n int) {
+	if f := hook.Load(); f != nil {
+		(*f)(site, n)
+	}
+}
+
+// Set installs (or, with nil, removes) the callback.
+func Set(f func(site string, n int)) {
+	if f == nil {
+		hook.Store(nil)
+		return
+	}
+	hook.Store(&f)
+}
